@@ -175,6 +175,21 @@ func (c *Ctx) ruleA4(rule string, fn *ssa.Function, isWorker func(*ssa.Call) boo
 						if al, isAl := x.ResolveAddr(t.Addr).(*ssa.Alloc); isAl && al.Parent() == lit {
 							return false // a variable of the goroutine itself
 						}
+						// an element or field of something the goroutine allocated itself (the
+						// argument array of a variadic call)
+						root := t.Addr
+						for k := 0; k < 6; k++ {
+							if ia, ok := root.(*ssa.IndexAddr); ok {
+								root = ia.X
+							} else if fa, ok := root.(*ssa.FieldAddr); ok {
+								root = fa.X
+							} else {
+								break
+							}
+						}
+						if al, isAl := root.(*ssa.Alloc); isAl && al.Parent() == lit {
+							return false
+						}
 						return true
 					case *ssa.MapUpdate:
 						return true
